@@ -34,8 +34,12 @@ Proof.
   apply td_bind; [apply td_reset|].
   apply td_bind; [apply td_quiet, quiet_call_unavailable|apply td_quiet; qsetter].
 Qed.
+Lemma td_source_gone : TD source_gone.
+Proof.
+  intros s r Hin. unfold source_gone. destruct (aa s); [apply (td_quiet _ quiet_offline_start), Hin|apply td_sna, Hin].
+Qed.
 Lemma td_erp : TD execute_remove_publisher.
-Proof. unfold execute_remove_publisher. apply td_bind; [apply td_sna|apply td_quiet; qsetter]. Qed.
+Proof. unfold execute_remove_publisher. apply td_bind; [apply td_source_gone|apply td_quiet; qsetter]. Qed.
 
 Lemma bump_readers s : s_readers (bump_on_demand s) = s_readers s.
 Proof. apply bump_conf_readers. Qed.
@@ -58,13 +62,19 @@ Proof.
     intros t r Hin. left. destruct t; exact Hin. }
   apply T.
 Qed.
-Lemma td_attach q p : TD (attach_publisher q p).
+Lemma td_attach_tail q p : TD (attach_tail q p).
 Proof.
-  unfold attach_publisher.
-  apply td_bind; [apply td_quiet, quiet_set_available|].
+  unfold attach_tail.
   apply td_bind; [apply td_quiet; qsetter|].
+  apply td_bind; [apply td_quiet; qsetter|].
+  apply td_bind; [apply td_quiet, quiet_when, quiet_set_online|].
   apply td_bind; [apply td_quiet, quiet_when; qbind; [qsetter|apply quiet_pub_schedule_close]|].
   apply td_bind; [apply td_consume|apply td_same].
+Qed.
+Lemma td_attach q p ok : TD (attach_publisher q p ok).
+Proof.
+  unfold attach_publisher. apply td_bind; [apply td_quiet, quiet_when_sa|].
+  intros s r Hin. cbn beta. destruct (aa s && negb ok); [left; exact Hin|apply td_attach_tail, Hin].
 Qed.
 
 Lemma remove_z_keep x y l : In y l -> y <> x -> In y (remove_z x l).
@@ -89,7 +99,7 @@ Proof.
   - (* AddPublisher *) unfold do_add_publisher. destruct (c_static (s_conf s)); [left; exact Hin|].
     destruct (s_source s) as [old|]; [|apply td_attach, Hin].
     destruct (negb (c_override (s_conf s))); [left; exact Hin|].
-    apply (td_bind _ _ (td_quiet _ (quiet_emit [EPubClosed old] eq_refl)) (td_bind _ _ td_erp (td_attach q p))), Hin.
+    apply (td_bind _ _ (td_quiet _ (quiet_emit [EPubClosed old] eq_refl)) (td_bind _ _ td_erp (td_attach q p ok))), Hin.
   - (* RemovePublisher *) unfold do_remove_publisher. destruct (s_source s); [|left; exact Hin].
     destruct (z =? p); [|left; exact Hin].
     apply (td_bind _ _ td_erp (td_when _ _ (td_quiet _ quiet_pub_stop))), Hin.
@@ -112,10 +122,11 @@ Proof.
     destruct (td_when (fun s0 => ods_eqb (s_pubState s0) OdReady) _ (td_quiet _ quiet_pub_schedule_close) s1 r H1) as [H|H]; [exact H|].
     exfalso. unfold whenM, pub_schedule_close, modify in H. destruct (ods_eqb (s_pubState s1) OdReady); destruct H.
   - (* StaticReady *) unfold do_static_ready. destruct (s_ssRunning s && negb (s_instReady s)); [|left; exact Hin].
-    refine (td_bind _ _ (td_quiet _ quiet_set_available) (td_bind _ _ _ (td_bind _ _ td_consume (td_bind _ _ _ (td_same _)))) s r Hin);
-      [apply td_quiet, quiet_when; qbind; [qsetter|apply quiet_ss_schedule_close]|tdset].
+    refine (td_bind _ _ (td_quiet _ quiet_when_sa) (td_bind _ _ _ (td_bind _ _ (td_quiet _ (quiet_when _ _ quiet_set_online))
+             (td_bind _ _ _ (td_bind _ _ td_consume (td_bind _ _ _ (td_same _)))))) s r Hin);
+      [tdset|apply td_quiet, quiet_when; qbind; [qsetter|apply quiet_ss_schedule_close]|tdset].
   - (* StaticNotReady *) unfold do_static_not_ready. destruct (s_ssRunning s && s_instReady s); [|left; exact Hin].
-    refine (td_bind _ _ td_sna (td_bind _ _ _ (td_when _ _ (td_quiet _ quiet_ss_stop))) s r Hin); tdset.
+    refine (td_bind _ _ td_source_gone (td_bind _ _ _ (td_when _ _ (td_quiet _ quiet_ss_stop))) s r Hin); tdset.
   - (* TimerFire *) unfold do_timer. destruct (timer_armed t s); [|left; exact Hin].
     refine (td_bind _ _ (td_quiet _ _) (td_bind _ _ (td_quiet _ (quiet_emit [EFired t] eq_refl)) _) s r Hin); [destruct t; qsetter|].
     destruct t.
@@ -179,78 +190,113 @@ Proof.
   repeat (apply in_or_app; right). left. reflexivity.
 Qed.
 
-Lemma pre_attach_fields p s :
-  s_stream (fst (pre_attach p s)) = Some (s_nextgen s) /\ s_source (fst (pre_attach p s)) = Some p.
-Proof.
-  destruct s as [cf ? ? ? ? ? ? ? ? ? ? ? ? pst ? ? ? ? hof].
-  unfold pre_attach, set_available, set_online, set_offline, hook_open, hook_close, pub_schedule_close, whenM, bindM, modify, emit.
-  cbn. destruct hof; cbn; destruct (od_pub cf); cbn; destruct pst; cbn; split; reflexivity.
-Qed.
-
 Lemma consume_fields s :
-  s_stream (fst (consume_on_hold s)) = s_stream s /\ s_source (fst (consume_on_hold s)) = s_source s.
+  s_stream (fst (consume_on_hold s)) = s_stream s /\ s_source (fst (consume_on_hold s)) = s_source s /\
+  s_sub (fst (consume_on_hold s)) = s_sub s.
 Proof.
-  assert (B : forall t, s_stream (bump_on_demand t) = s_stream t /\ s_source (bump_on_demand t) = s_source t).
-  { intros t. destruct t as [cf ? ? ? ? ? ? ? sst ? ? ? ? pst ? ? ? ? ?]. unfold bump_on_demand. cbn.
-    destruct (od_static cf); [destruct sst; split; reflexivity|].
-    destruct (od_pub cf); [destruct pst; split; reflexivity|split; reflexivity]. }
+  assert (B : forall t, s_stream (bump_on_demand t) = s_stream t /\ s_source (bump_on_demand t) = s_source t /\
+                        s_sub (bump_on_demand t) = s_sub t).
+  { intros t. destruct t as [cf ? ? ? ? ? ? ? sst ? ? ? ? pst ? ? ? ? ? ?]. unfold bump_on_demand. cbn.
+    destruct (od_static cf); [destruct sst; repeat split; reflexivity|].
+    destruct (od_pub cf); [destruct pst; repeat split; reflexivity|repeat split; reflexivity]. }
   destruct (consume_cases s) as [E|(rd' & _ & E)]; rewrite E.
-  - destruct s; split; reflexivity.
-  - destruct (B (set_readers rd' (set_dhold [] s))) as [B1 B2].
-    replace (s_stream (set_rhold [] (bump_on_demand (set_readers rd' (set_dhold [] s)))))
-      with (s_stream (bump_on_demand (set_readers rd' (set_dhold [] s))))
-      by (destruct (bump_on_demand (set_readers rd' (set_dhold [] s))); reflexivity).
-    replace (s_source (set_rhold [] (bump_on_demand (set_readers rd' (set_dhold [] s)))))
-      with (s_source (bump_on_demand (set_readers rd' (set_dhold [] s))))
-      by (destruct (bump_on_demand (set_readers rd' (set_dhold [] s))); reflexivity).
-    rewrite B1, B2. destruct s; split; reflexivity.
+  - destruct s; repeat split; reflexivity.
+  - destruct (B (set_readers rd' (set_dhold [] s))) as (B1 & B2 & B3).
+    destruct (bump_on_demand (set_readers rd' (set_dhold [] s))) eqn:Eb. cbn in *.
+    rewrite B1, B2, B3. destruct s; repeat split; reflexivity.
 Qed.
 
-Lemma attach_shape q p s :
-  snd (attach_publisher q p s) =
+(* an attached reader stays attached across consumeOnHoldRequests *)
+Lemma keep_consume s r : In r (s_readers s) -> In r (s_readers (fst (consume_on_hold s))).
+Proof.
+  intros Hin. destruct (consume_cases s) as [E|(rd' & _ & E)].
+  - rewrite E. destruct s; exact Hin.
+  - destruct (td_consume s r Hin) as [H|H]; [exact H|]. exfalso.
+    clear - H. unfold consume_on_hold in H. rewrite !snd_bind in H. cbn [snd fst modify] in H.
+    apply in_app_or in H. destruct H as [H|H].
+    + apply in_map_iff in H. destruct H as (x & Hx & _). discriminate Hx.
+    + apply in_app_or in H. destruct H as [H|[]].
+      revert H. generalize (set_dhold [] s). induction (s_rhold s) as [|[q0 r0] l IH]; intros t H; [destruct H|].
+      cbn [add_readers_post] in H. rewrite snd_bind in H. apply in_app_or in H. destruct H as [H|H]; [|exact (IH _ H)].
+      unfold add_reader_post in H. destruct (mem r0 (s_readers t)); [destruct H as [H|[]]; discriminate H|].
+      destruct (negb (c_maxr (s_conf t) =? 0) && (c_maxr (s_conf t) <=? Z.of_nat (length (s_readers t))));
+        destruct H as [H|[]]; discriminate H.
+Qed.
+
+(* ---- not alwaysAvailable: the old stream is torn down before the new one is created ---------------- *)
+Lemma pre_attach_fields p s : aa s = false ->
+  s_stream (fst (pre_attach p s)) = Some (s_nextgen s) /\ s_source (fst (pre_attach p s)) = Some p /\
+  s_sub (fst (pre_attach p s)) = SPub p.
+Proof.
+  destruct s as [[? ? ? ? ? ? ? ? hd ? a] ? ? ? ? ? ? ? ? ? ? ? ? pst ? ? ? ? hof ?]. unfold aa. cbn. intros ->.
+  destruct hof, hd, pst; repeat split; reflexivity.
+Qed.
+
+Lemma pre_attach_events p s : aa s = false -> In (EPathReady (s_nextgen s)) (snd (pre_attach p s)).
+Proof.
+  intros Ha. unfold pre_attach. rewrite snd_bind. apply in_or_app. left.
+  unfold whenM, not_aa. unfold aa in Ha. rewrite Ha. apply set_available_events.
+Qed.
+
+Lemma attach_events q p ok s : aa s = false ->
+  snd (attach_publisher q p ok s) =
+  snd (pre_attach p s) ++ snd (consume_on_hold (fst (pre_attach p s))) ++
+  [EAnswer q (AStream (cur_stream (fst (consume_on_hold (fst (pre_attach p s))))))].
+Proof.
+  intros Ha. unfold attach_publisher, pre_attach. rewrite !snd_bind, !fst_bind.
+  assert (Ea : aa (fst (whenM not_aa set_available s)) = false) by (unfold aa in *; rewrite conf_when_sa; exact Ha).
+  rewrite Ea. cbn [andb]. rewrite attach_tail_events, <- !app_assoc. reflexivity.
+Qed.
+
+Lemma attach_shape q p ok s : aa s = false ->
+  snd (attach_publisher q p ok s) =
   snd (pre_attach p s) ++ snd (consume_on_hold (fst (pre_attach p s))) ++ [EAnswer q (AStream (s_nextgen s))] /\
   In (EPathReady (s_nextgen s)) (snd (pre_attach p s)) /\
-  s_stream (fst (attach_publisher q p s)) = Some (s_nextgen s) /\
-  s_source (fst (attach_publisher q p s)) = Some p.
+  s_stream (fst (attach_publisher q p ok s)) = Some (s_nextgen s) /\
+  s_source (fst (attach_publisher q p ok s)) = Some p /\
+  s_sub (fst (attach_publisher q p ok s)) = SPub p.
 Proof.
-  destruct (pre_attach_fields p s) as [P1 P2].
-  destruct (consume_fields (fst (pre_attach p s))) as [C1 C2].
-  split; [|split; [|split]].
-  - assert (E : snd (attach_publisher q p s) =
-              snd (pre_attach p s) ++ snd (consume_on_hold (fst (pre_attach p s))) ++
-              [EAnswer q (AStream (cur_stream (fst (consume_on_hold (fst (pre_attach p s))))))]).
-    { unfold attach_publisher, pre_attach. rewrite !snd_bind, !fst_bind. cbn [snd fst modify]. rewrite <- !app_assoc. reflexivity. }
-    rewrite E. unfold cur_stream. rewrite C1, P1. reflexivity.
-  - unfold pre_attach. rewrite snd_bind. apply in_or_app. left. apply set_available_events.
-  - rewrite fst_attach, C1. exact P1.
-  - rewrite fst_attach, C2. exact P2.
+  intros Ha. destruct (pre_attach_fields p s Ha) as (P1 & P2 & P3).
+  destruct (consume_fields (fst (pre_attach p s))) as (C1 & C2 & C3).
+  assert (Ef : fst (attach_publisher q p ok s) = fst (consume_on_hold (fst (pre_attach p s)))).
+  { rewrite fst_attach, Ha. reflexivity. }
+  split; [|split; [|split; [|split]]].
+  - rewrite (attach_events q p ok s Ha). unfold cur_stream. rewrite C1, P1. reflexivity.
+  - apply pre_attach_events, Ha.
+  - rewrite Ef, C1. exact P1.
+  - rewrite Ef, C2. exact P2.
+  - rewrite Ef, C3. exact P3.
 Qed.
 
-Lemma c16_override_closes_first fx s q p old :
-  s_closed s = false -> c_static (s_conf s) = false -> c_override (s_conf s) = true -> s_source s = Some old ->
-  let evs := snd (step_gen fx s (AddPublisher q p)) in
-  let s' := fst (step_gen fx s (AddPublisher q p)) in
+Lemma c16_override_closes_first fx s q p ok old :
+  s_closed s = false -> c_static (s_conf s) = false -> c_aa (s_conf s) = false ->
+  c_override (s_conf s) = true -> s_source s = Some old ->
+  let evs := snd (step_gen fx s (AddPublisher q p ok)) in
+  let s' := fst (step_gen fx s (AddPublisher q p ok)) in
   let g := s_nextgen s in
   Before (EPubClosed old) (EPathReady g) evs /\
   Before EPathNotReady (EPathReady g) evs /\
   (forall r, In r (s_readers s) -> Before (EReaderClosed r) (EPathReady g) evs) /\
   Before (EPathReady g) (EAnswer q (AStream g)) evs /\
-  s_source s' = Some p /\ s_stream s' = Some g.
+  s_source s' = Some p /\ s_stream s' = Some g /\ s_sub s' = SPub p.
 Proof.
-  intros Hc Hst Hov Hsrc. cbv zeta. unfold step_gen, do_add_publisher. rewrite Hc, Hst, Hsrc, Hov. cbn [negb].
+  intros Hc Hst Haa Hov Hsrc. cbv zeta. unfold step_gen, do_add_publisher. rewrite Hc, Hst, Hsrc, Hov. cbn [negb].
   rewrite !snd_bind, !fst_bind. cbn [snd fst emit].
+  assert (Eerp : execute_remove_publisher s = (set_not_available ;; modify (set_source None)) s).
+  { unfold execute_remove_publisher, bindM, source_gone, aa. rewrite Haa. reflexivity. }
   set (s2 := fst (execute_remove_publisher s)).
-  assert (Hg : s_nextgen s2 = s_nextgen s).
-  { unfold s2, execute_remove_publisher. rewrite fst_bind. cbn [fst modify].
-    destruct (sna_fields s) as (_ & _ & A & _). destruct (fst (set_not_available s)); exact A. }
-  destruct (attach_shape q p s2) as (Sh & Rd & St & So). rewrite Hg in *.
+  assert (Hg : s_nextgen s2 = s_nextgen s /\ aa s2 = false).
+  { unfold s2. rewrite Eerp, fst_bind. cbn [fst modify].
+    destruct (sna_fields s) as (_ & _ & A & B). unfold aa. destruct (fst (set_not_available s)); cbn in *. rewrite A, B. auto. }
+  destruct Hg as [Hg Ha2].
+  destruct (attach_shape q p ok s2 Ha2) as (Sh & Rd & St & So & Su). rewrite Hg in *.
   assert (Hnr : In EPathNotReady (snd (execute_remove_publisher s))).
-  { unfold execute_remove_publisher. rewrite snd_bind. apply in_or_app. left. apply sna_events. }
+  { rewrite Eerp, snd_bind. apply in_or_app. left. apply sna_events. }
   assert (Hcl : forall r, In r (s_readers s) -> In (EReaderClosed r) (snd (execute_remove_publisher s))).
   { intros r Hin. destruct (td_erp s r Hin) as [H|H]; [|exact H]. exfalso.
-    unfold execute_remove_publisher in H. rewrite fst_bind in H. cbn [fst modify] in H.
+    rewrite Eerp, fst_bind in H. cbn [fst modify] in H.
     destruct (sna_fields s) as (A & _). destruct (fst (set_not_available s)); cbn in *. rewrite A in H. destruct H. }
-  assert (Hrd : In (EPathReady (s_nextgen s)) (snd (attach_publisher q p s2))).
+  assert (Hrd : In (EPathReady (s_nextgen s)) (snd (attach_publisher q p ok s2))).
   { rewrite Sh. apply in_or_app. left; exact Rd. }
   repeat split.
   - rewrite app_assoc. apply before_app_l; [apply in_or_app; left; left; reflexivity|exact Hrd].
@@ -260,4 +306,91 @@ Proof.
     apply in_or_app. left. apply in_or_app. right. exact Rd.
   - exact So.
   - exact St.
+  - exact Su.
+Qed.
+
+(* ---- alwaysAvailable: the stream and its readers stay; the replaced publisher is closed and detached, and
+   its sub-stream is not the current one afterwards: the new publisher's is, or - when the new publisher's
+   tracks are refused - the offline one ------------------------------------------------------------- *)
+Lemma erp_aa s : aa s = true ->
+  let s2 := fst (execute_remove_publisher s) in
+  s_source s2 = None /\ s_sub s2 = SOffline /\ s_stream s2 = s_stream s /\ s_readers s2 = s_readers s /\
+  aa s2 = true /\ s_hOffline s2 = false.
+Proof.
+  destruct s as [[? ? ? ? ? ? ? ? ? ? a] ? ? ? ? ? ? ? ? ? ? ? ? ? ? ? ? ? hof ?]. unfold aa. cbn. intros ->.
+  destruct hof; repeat split; reflexivity.
+Qed.
+
+Lemma pre_tail_fields p s :
+  s_stream (fst (pre_tail p s)) = s_stream s /\ s_source (fst (pre_tail p s)) = Some p /\
+  s_sub (fst (pre_tail p s)) = SPub p /\ s_readers (fst (pre_tail p s)) = s_readers s.
+Proof.
+  destruct s as [[? ? ? ? ? ? ? ? hd ? a] ? ? ? ? ? ? ? ? ? ? ? ? pst ? ? ? ? hof ?].
+  destruct a, hof, hd, pst; repeat split; reflexivity.
+Qed.
+
+Lemma attach_aa q p ok s g : aa s = true -> s_stream s = Some g ->
+  let s' := fst (attach_publisher q p ok s) in
+  let evs := snd (attach_publisher q p ok s) in
+  s_stream s' = Some g /\ (forall r, In r (s_readers s) -> In r (s_readers s')) /\
+  if ok then s_source s' = Some p /\ s_sub s' = SPub p /\ In (EAnswer q (AStream g)) evs
+  else s' = s /\ evs = [EAnswer q (AErr E_INCOMPAT)].
+Proof.
+  intros Ha Hs. cbv zeta.
+  assert (Ew : whenM not_aa set_available s = (s, [])).
+  { unfold whenM, not_aa. unfold aa in Ha. rewrite Ha. reflexivity. }
+  unfold attach_publisher, bindM. rewrite Ew, Ha. destruct ok; cbn [negb andb fst snd app].
+  - destruct (pre_tail_fields p s) as (P1 & P2 & P3 & P4).
+    destruct (consume_fields (fst (pre_tail p s))) as (C1 & C2 & C3).
+    destruct (attach_tail q p s) as [s' evs] eqn:E.
+    assert (Es : s' = fst (consume_on_hold (fst (pre_tail p s)))) by (rewrite <- (fst_attach_tail q), E; reflexivity).
+    assert (Ee : evs = snd (attach_tail q p s)) by (rewrite E; reflexivity).
+    cbn [fst snd]. subst s'. rewrite C1, C2, C3, P1, P2, P3, Hs. split; [reflexivity|]. split.
+    + intros r Hin. apply keep_consume. rewrite P4. exact Hin.
+    + repeat split. rewrite Ee, attach_tail_events. apply in_or_app. right. apply in_or_app. right.
+      unfold cur_stream. rewrite C1, P1, Hs. left. reflexivity.
+  - repeat split; auto.
+Qed.
+
+Lemma c16_override_aa fx s q p ok old g :
+  s_closed s = false -> c_static (s_conf s) = false -> c_aa (s_conf s) = true ->
+  c_override (s_conf s) = true -> s_source s = Some old -> s_stream s = Some g ->
+  let evs := snd (step_gen fx s (AddPublisher q p ok)) in
+  let s' := fst (step_gen fx s (AddPublisher q p ok)) in
+  In (EPubClosed old) evs /\
+  s_stream s' = Some g /\
+  (forall r, In r (s_readers s) -> In r (s_readers s')) /\
+  if ok then s_source s' = Some p /\ s_sub s' = SPub p /\ In (EAnswer q (AStream g)) evs
+  else s_source s' = None /\ s_sub s' = SOffline /\ In (EAnswer q (AErr E_INCOMPAT)) evs.
+Proof.
+  intros Hc Hst Haa Hov Hsrc Hstr. cbv zeta. unfold step_gen, do_add_publisher. rewrite Hc, Hst, Hsrc, Hov. cbn [negb].
+  rewrite !snd_bind, !fst_bind. cbn [snd fst emit].
+  destruct (erp_aa s Haa) as (E1 & E2 & E3 & E4 & E5 & _).
+  set (s2 := fst (execute_remove_publisher s)) in *.
+  assert (Hs2 : s_stream s2 = Some g) by (rewrite E3; exact Hstr).
+  pose proof (attach_aa q p ok s2 g E5 Hs2) as A. cbv zeta in A. destruct A as (A1 & A2 & A3).
+  split; [apply in_or_app; left; left; reflexivity|]. split; [exact A1|]. split.
+  - intros r Hin. apply A2. rewrite E4. exact Hin.
+  - destruct ok.
+    + destruct A3 as (B1 & B2 & B3). repeat split; [exact B1|exact B2|].
+      apply in_or_app. right. apply in_or_app. right. exact B3.
+    + destruct A3 as (B1 & B2). rewrite B1, B2. repeat split; [exact E1|exact E2|].
+      apply in_or_app. right. apply in_or_app. right. left. reflexivity.
+Qed.
+
+(* C18 on alwaysAvailable paths: the publisher leaves, the stream and every reader stay *)
+Lemma c18_aa_publisher_leaves fx s p :
+  s_closed s = false -> c_aa (s_conf s) = true ->
+  let s' := fst (step_gen fx s (RemovePublisher p)) in
+  s_stream s' = s_stream s /\ s_readers s' = s_readers s.
+Proof.
+  intros Hc Haa. cbv zeta. unfold step_gen, do_remove_publisher. rewrite Hc.
+  destruct (s_source s) as [p0|]; [|split; reflexivity]. destruct (p0 =? p); [|split; reflexivity].
+  rewrite fst_bind. destruct (erp_aa s Haa) as (_ & _ & E3 & E4 & _).
+  set (s2 := fst (execute_remove_publisher s)) in *.
+  assert (Q : Quiet (whenM (fun s0 => fx && od_pub (s_conf s0) && negb (ods_eqb (s_pubState s0) OdInitial)) pub_stop))
+    by apply quiet_when, quiet_pub_stop.
+  destruct (Q s2) as (_ & _ & _ & R). rewrite R, E4. split; [|reflexivity]. rewrite <- E3.
+  unfold whenM. destruct (fx && od_pub (s_conf s2) && negb (ods_eqb (s_pubState s2) OdInitial)); [|reflexivity].
+  destruct s2 as [? ? ? ? ? ? ? ? ? ? ? ? ? pst ? pct hud ? ? ?]. destruct pst, hud; reflexivity.
 Qed.
